@@ -31,6 +31,10 @@ pub struct Scn {
     /// roll is retried once and the history continues
     #[serde(default)]
     pub faults: Vec<kernel::FaultSpec>,
+    /// (roll number, offset): before that roll a non-empty directory sits at
+    /// archive `base + offset`; it is removed again before the following roll
+    #[serde(default)]
+    pub obstacles: Vec<(usize, u32)>,
     pub sched_seed: u64,
 }
 
@@ -44,7 +48,29 @@ pub fn generate(rng: &mut Rng, tier: Tier) -> Scn {
             (0..k).map(|_| super::f::gen_len(rng).min(3000)).collect()
         })
         .collect();
-    Scn { roller, pre_archives, bystanders, rolls, faults: vec![], sched_seed: rng.next_u64() }
+    Scn { roller, pre_archives, bystanders, rolls, faults: vec![], obstacles: vec![], sched_seed: rng.next_u64() }
+}
+
+/// Rolls over a tree in which a real obstruction makes one rotation step fail
+/// with its own errno: the roll must report the failure and destroy nothing.
+pub fn generate_obst(rng: &mut Rng, tier: Tier) -> Scn {
+    let mut s = generate(rng, tier);
+    if let RollerSpec::Fixed { pat, base, count } = &s.roller {
+        if *count < 2 {
+            s.roller = RollerSpec::Fixed { pat: *pat, base: *base, count: rng.range(2, 4) as u32 };
+        }
+    }
+    if let RollerSpec::Fixed { count, .. } = &s.roller {
+        // enough rolls to fill the window, the obstruction preferably at the top slot once it is full
+        while s.rolls.len() < *count as usize + 1 {
+            s.rolls.push(vec![rng.range(1, 60) as u32]);
+        }
+        let late = rng.chance(2, 3);
+        let at = if late { s.rolls.len() - 1 - rng.below(2) as usize } else { rng.below(s.rolls.len() as u64) as usize };
+        let off = if rng.chance(1, 2) { *count - 1 } else { rng.range(1, (*count - 1) as u64) as u32 };
+        s.obstacles.push((at, off));
+    }
+    s
 }
 
 const AT: Attr = Attr { prop: "C07", data: "C07-I1", other_prop: "C07", other: "C07-I4", sig: "", also: None };
@@ -91,6 +117,7 @@ pub fn execute(scn: &Scn, opts: &ExecOpts) -> Outcome {
     let sched = opts.sched.clone().unwrap_or(Sched::Prng { seed: scn.sched_seed, policy: kernel::Policy::RoundRobin });
     let k = common::begin(RunCfg { sched, trace: opts.trace, start_ns: common::T0_NS, tz: None, faults: scn.faults.clone(), crash: None, rand_script: vec![], step_cap: 20_000 });
     let rolls = scn.rolls.clone();
+    let obstacles = scn.obstacles.clone();
     let roller_spec = scn.roller.clone();
     let names2 = names.clone();
     let sink2 = sink.clone();
@@ -115,6 +142,30 @@ pub fn execute(scn: &Scn, opts: &ExecOpts) -> Outcome {
             }
             fs::write(&names2.active, &bytes).unwrap();
             model.active = bytes;
+            // real obstructions
+            let mut obstructed = false;
+            if let RollerSpec::Fixed { base, .. } = &roller_spec {
+                for (at, off) in &obstacles {
+                    let p = names2.arch(base + off);
+                    if *at == ri {
+                        let _ = fs::create_dir_all(p.join("keep"));
+                        let _ = fs::write(p.join("keep").join("x"), b"x");
+                        obstructed = true;
+                        sink2.probe("obstacle_directory_at_archive_name", 1);
+                    } else if *at + 1 == ri {
+                        // the obstruction is cleared, wherever the rotation may have carried it
+                        if let RollerSpec::Fixed { base, count, .. } = &roller_spec {
+                            for i in *base..=*base + *count {
+                                let q = names2.arch(i);
+                                if q.is_dir() {
+                                    let _ = fs::remove_dir_all(&q);
+                                }
+                            }
+                        }
+                        let _ = p;
+                    }
+                }
+            }
             kernel::note("roll", &format!("{} bytes={}", ri, model.active.len()));
             let fired_before = kernel::current().map(|k| k.faults_fired_count()).unwrap_or(0);
             match roller.roll(&names2.active) {
@@ -132,6 +183,31 @@ pub fn execute(scn: &Scn, opts: &ExecOpts) -> Outcome {
                 }
                 Err(e) => {
                     let injected = kernel::current().map(|k| k.faults_fired_count() > fired_before).unwrap_or(false);
+                    if obstructed && !injected {
+                        // a real failure: nothing that was there before may be missing afterwards
+                        sink2.probe("rolls_failed_by_obstruction", 1);
+                        if !names2.active.exists() {
+                            sink2.fail("C07", "C07-I1", "rolled-file-lost-by-failed-roll", format!("roll {} failed ({:#}) and the file being rolled is gone", ri + 1, e));
+                            return;
+                        }
+                        let before: Vec<Vec<u8>> = model.window.values().cloned().collect();
+                        model.resync(&names2);
+                        for chunk in before.iter().filter(|c| !c.is_empty()) {
+                            // the chunk about to be evicted may be gone, every other one must still be somewhere
+                            let still = model.window.values().any(|c| c == chunk);
+                            let evictable = model.managed().last().map(|_| true).unwrap_or(false) && before.last() == Some(chunk);
+                            if !still && !evictable {
+                                sink2.fail("C07", "C07-I1", "archive-lost-by-failed-roll", format!("roll {} failed ({:#}) and an archive that still fits the window ({:?}) is gone", ri + 1, e, frame::whole_ids(chunk).iter().map(|i| i.to_string()).collect::<Vec<_>>()));
+                                return;
+                            }
+                        }
+                        // the file stays where it was; it is rolled with the next roll's content replacing it in this harness,
+                        // so archive it by hand to keep the history meaningful
+                        let _ = fs::remove_file(&names2.active);
+                        model.active.clear();
+                        kernel::point("op.done");
+                        continue;
+                    }
                     if !injected {
                         sink2.fail("C07", "C07-E0", "roll-failed", format!("roll {} failed although nothing was injected: {:#}", ri + 1, e));
                         return;
@@ -199,7 +275,7 @@ pub fn execute(scn: &Scn, opts: &ExecOpts) -> Outcome {
 }
 
 pub fn size(s: &Scn) -> usize {
-    s.rolls.iter().map(|r| 1 + r.len()).sum::<usize>() + s.pre_archives.len() + s.bystanders.len()
+    s.rolls.iter().map(|r| 1 + r.len()).sum::<usize>() + s.pre_archives.len() + s.bystanders.len() + s.obstacles.len()
 }
 
 pub fn shrink(s: &Scn) -> Vec<Scn> {
